@@ -72,7 +72,7 @@ func runC19(seed int64, tier string, sc *Script) map[string]any {
 			for _, cfg := range []string{"none", "valid", "validempty", "invalid", "emptytype"} {
 				for _, layers := range []int{0, 2} {
 					for _, subject := range []int{0, 1} {
-						for _, created := range []string{"absent", "valid", "malformed", "empty"} {
+						for _, created := range []string{"absent", "valid", "malformed", "empty", "validfrac", "validoffset"} {
 							for _, target := range []string{"ros-present", "ros-absent", "pusher"} {
 								artifactType := map[string]string{"empty": "", "valid": "application/vnd.verif.type", "invalid": "not a media type"}[at]
 								opts := oras.PackManifestOptions{ConfigAnnotations: map[string]string{"cfg": "ann"}}
@@ -108,6 +108,10 @@ func runC19(seed int64, tier string, sc *Script) map[string]any {
 									opts.ManifestAnnotations[ocispec.AnnotationCreated] = "yesterday"
 								case "empty":
 									opts.ManifestAnnotations[ocispec.AnnotationCreated] = ""
+								case "validfrac": // valid RFC 3339, not in whole-second form: kept as given
+									opts.ManifestAnnotations[ocispec.AnnotationCreated] = "2001-02-03T04:05:06.5Z"
+								case "validoffset":
+									opts.ManifestAnnotations[ocispec.AnnotationCreated] = "2001-02-03T04:05:06+00:00"
 								}
 								version := oras.PackManifestVersion1_1
 								if ver == "10" {
@@ -299,7 +303,7 @@ func checkPacked(ctx context.Context, st *memory.Store, desc ocispec.Descriptor,
 	if !ok {
 		return "created-missing"
 	}
-	if created == "valid" && c != "2001-02-03T04:05:06Z" {
+	if want := map[string]string{"valid": "2001-02-03T04:05:06Z", "validfrac": "2001-02-03T04:05:06.5Z", "validoffset": "2001-02-03T04:05:06+00:00"}[created]; want != "" && c != want {
 		return "created-overwritten"
 	}
 	if desc.Annotations[ocispec.AnnotationCreated] != c {
